@@ -1057,7 +1057,11 @@ def climate_cases(draw):
     kinds = ("fine", "fine", "fine", "small", "dyadic", "walk")
     # partial correlation needs a regular correlation matrix: no exactly
     # collinear columns by construction (they still occur by chance)
-    plain = kind == "partial" and draw(st.integers(0, 3)) > 0
+    # (same switch gives Spearman a share of tie-free data sets)
+    plain = (kind == "partial" and draw(st.integers(0, 3)) > 0) or \
+        (kind == "spearman" and draw(st.booleans()))
+    if plain and kind == "spearman":
+        kinds = ("fine",)
     if winter:
         x = draw(data_arrays(t_min=24, t_max=48, n_max=5, kinds=kinds,
                              degenerate=not plain, affine=not plain))
